@@ -152,6 +152,48 @@ def dtype_probe(F):
     F.check("C16", "probe/array-constructor-keeps-caller-dtype-names", dt.names == ("px", "py", "pz"), dict(after=dt.names))
 
 
+def aliasing_probe(F):
+    """Results may share coordinate sub-objects with their operands; an in-place update of the *result* must not reach the operand
+    (SymPy and object backends, every system and flavor, two-step histories: derive, then update the derived vector in place)"""
+    import numpy as np
+    import sympy
+    import vector
+    from .. import arrays as AR
+    import vector.backends.object as OB
+
+    def snap(v):
+        return tuple((type(getattr(v, g)).__name__, tuple(getattr(v, g).elements)) for g in ("azimuthal", "longitudinal", "temporal") if hasattr(v, g))
+    derive = [("rotateZ", lambda v: v.rotateZ(0.3)), ("scale2D", lambda v: v.scale2D(2.0)), ("neg2D", lambda v: v.neg2D), ("rotateX", lambda v: v.rotateX(0.2)), ("scale3D", lambda v: v.scale3D(2.0)),
+              ("to_Vector3D", lambda v: v.to_Vector3D()), ("to_Vector4D", lambda v: v.to_Vector4D()), ("+v", lambda v: +v), ("to_xy", lambda v: v.to_xy()), ("to_rhophi", lambda v: v.to_rhophi())]
+    update = [("+=", lambda w, u: w.__iadd__(u)), ("-=", lambda w, u: w.__isub__(u)), ("*=", lambda w, u: w.__imul__(2.0)), ("/=", lambda w, u: w.__itruediv__(4.0))]
+    for s in AR.systems():
+        names = AR.names_of(s)
+        d = len(s) + 1
+        for mom in (False, True):
+            key = (lambda n: AR.MOM.get(n, n)) if mom else (lambda n: n)
+            scls = {(2, False): vector.VectorSympy2D, (3, False): vector.VectorSympy3D, (4, False): vector.VectorSympy4D,
+                    (2, True): vector.MomentumSympy2D, (3, True): vector.MomentumSympy3D, (4, True): vector.MomentumSympy4D}[(d, mom)]
+            makers = [("sympy", lambda tag: scls(**{key(n): sympy.Symbol(n + tag, real=True) for n in names})),
+                      ("object", lambda tag: vector.obj(**{key(n): 1.5 + 0.25 * i + (0.5 if tag == "2" else 0.0) for i, n in enumerate(names)}))]
+            for bname, mk in makers:
+                for dname, dv in derive:
+                    for uname, up in update:
+                        v, u = mk("1"), mk("2")
+                        tag = f"{dname};{uname}[{','.join(s)}|{'mom' if mom else 'gen'}|{bname}]"
+                        try:
+                            with np.errstate(all="ignore"):
+                                w = dv(v)
+                                if w is v:
+                                    continue        # the operation handed back the operand itself: updating it in place is the explicit in-place API
+                                if vector.dim(w) != vector.dim(u):
+                                    u = dv(u)
+                                before = snap(v)
+                                up(w, u)
+                        except Exception:
+                            continue
+                        F.check("C16", f"probe/operand-unchanged-by-in-place-update-of-a-derived-vector/{tag}", snap(v) == before, dict(before=str(before)[:160], after=str(snap(v))[:160]))
+
+
 def nonfinite_probe_worker(job):
     """bounded: operands holding NaN, +-inf and -0.0 are bit-for-bit unchanged by every unary operation and reduction (NumPy, Awkward)"""
     import numpy as np
@@ -225,6 +267,7 @@ def main(argv):
         F.n += n_
         F.bad += bad_
     dtype_probe(F)
+    aliasing_probe(F)
     from .. import arrays as AR
     for n_, bad_ in C.pool_map(nonfinite_probe_worker, [(s_, m_) for s_ in AR.systems() for m_ in (False, True)]):
         F.n += n_
@@ -278,6 +321,25 @@ def replay(prop, rp, path):
             print(f"VIOLATION property={prop} replay={path} no-failing-input-found")
             return 1
         print("no longer flagged")
+        return 0
+    if "/probe/" in oid:
+        from .. import arrays as AR
+        F = E.Fails()
+        dtype_probe(F)
+        aliasing_probe(F)
+        bad = list(F.bad)
+        if "/nonfinite-" in oid:
+            for n_, b_ in C.pool_map(nonfinite_probe_worker, [(s_, m_) for s_ in AR.systems() for m_ in (False, True)]):
+                bad += b_
+        hit = [b for b in bad if b[1] == oid]
+        if hit:
+            print("still failing:", hit[0])
+            print(f"VIOLATION property={prop} replay={path}")
+            return 1
+        if not any(b[1] == oid for b in bad) and "/nonfinite-" not in oid and "derived-vector" not in oid and "dtype" not in oid:
+            from . import engined_prop
+            return engined_prop.replay(prop, rp, path)
+        print("contract holds on this tree")
         return 0
     from . import engined_prop
     return engined_prop.replay(prop, rp, path)
